@@ -6,8 +6,12 @@
 package main
 
 import (
+	"encoding/json"
 	"fmt"
 	"os"
+	"os/exec"
+	"path/filepath"
+	"strconv"
 
 	"verif/checks"
 	"verif/internal/run"
@@ -44,6 +48,9 @@ func main() {
 			os.Exit(2)
 		}
 		c := run.New(id, tier, ck.Level)
+		if n := shards(id, tier, ck.Race); n > 1 {
+			os.Exit(runSharded(c, id, n))
+		}
 		ck.Run(c)
 		os.Exit(c.Finish())
 	case "child":
@@ -60,6 +67,81 @@ func main() {
 	default:
 		usage()
 	}
+}
+
+// shards says in how many parallel processes (one derived seed each) the thorough tier of a check runs. Checks that
+// already supervise their own child processes (C03, C12, C20) and the seed-independent exhaustive table (C09) are not sharded.
+func shards(id, tier string, race bool) int {
+	if tier != "thorough" || race || id == "C03" || id == "C09" || os.Getenv("VERIF_PARTIAL") != "" {
+		return 1
+	}
+	n := 12
+	if v, err := strconv.Atoi(os.Getenv("VERIF_SHARDS")); err == nil && v >= 1 {
+		n = v
+	}
+	return n
+}
+
+func runSharded(c *run.Ctx, id string, n int) int {
+	self, err := os.Executable()
+	if err != nil {
+		fmt.Fprintln(os.Stderr, err)
+		return 2
+	}
+	dir := filepath.Join(run.VerifDir(), ".work", fmt.Sprintf("shards-%s-%d", id, os.Getpid()))
+	_ = os.MkdirAll(dir, 0o755)
+	defer os.RemoveAll(dir)
+	type res struct {
+		k    int
+		code int
+		err  error
+	}
+	ch := make(chan res, n)
+	for k := 0; k < n; k++ {
+		go func(k int) {
+			seed := c.Seed
+			if k > 0 {
+				seed = c.Seed*1000 + int64(k)
+			}
+			cmd := exec.Command(self, "check", id, "--tier", "thorough")
+			cmd.Env = append(os.Environ(), fmt.Sprintf("VERIF_SEED=%d", seed), "VERIF_PARTIAL="+filepath.Join(dir, fmt.Sprintf("part-%d.json", k)))
+			cmd.Stdout = os.Stdout
+			cmd.Stderr = os.Stderr
+			err := cmd.Run()
+			code := 0
+			if ee, isExit := err.(*exec.ExitError); isExit {
+				code = ee.ExitCode()
+				err = nil
+			}
+			ch <- res{k, code, err}
+		}(k)
+	}
+	broken := 0
+	for i := 0; i < n; i++ {
+		r := <-ch
+		if r.err != nil || (r.code != 0 && r.code != 1) {
+			fmt.Fprintf(os.Stderr, "shard %d of %s ended abnormally: code %d %v\n", r.k, id, r.code, r.err)
+			broken++
+		}
+	}
+	var parts []run.Partial
+	for k := 0; k < n; k++ {
+		b, err := os.ReadFile(filepath.Join(dir, fmt.Sprintf("part-%d.json", k)))
+		if err != nil {
+			continue
+		}
+		var p run.Partial
+		if json.Unmarshal(b, &p) == nil {
+			parts = append(parts, p)
+		}
+	}
+	c.Merge(parts)
+	code := c.Finish()
+	if broken > 0 && code == 0 {
+		fmt.Printf("INCONCLUSIVE property=%s reason=%d of %d shard processes ended abnormally\n", id, broken, n)
+		return 2
+	}
+	return code
 }
 
 func usage() {
